@@ -53,7 +53,7 @@ def anchors():
 
 def gen_cases(tier, seed):
     r = gen.rng(seed, "c15")
-    sources = [("n77", f) for f in N77] + [("synthetic", i) for i in range(3)]
+    sources = [("n77", f) for f in N77] + [("synthetic", i) for i in range(4)]
     reps = 2 if tier == "quick" else 40
     for src in sources:
         for entry in CHEAP:
@@ -103,7 +103,12 @@ def _load(name, folder="characterisation"):
 def _synthetic(i):
     """Type II/IV-like isotherms at temperatures where p0 is far from 1 bar (so that bar and relative pressure differ)."""
     import pygaps
-    ads, T = [("nitrogen", 70.0), ("nitrogen", 90.0), ("argon", 100.0)][i]
+    ads, T = [("nitrogen", 70.0), ("nitrogen", 90.0), ("argon", 100.0), ("verif-c15-vapour", 300.0)][i]
+    if i == 3:
+        # a user-defined vapour without thermodynamic backend: everything comes from the properties the user supplied
+        # (saturation pressure in Pa, densities in g/cm3, surface tension in mN/m, as documented)
+        pygaps.Adsorbate("verif-c15-vapour", store=True, formula="X", molar_mass=72.15, saturation_pressure=68300.0, liquid_density=0.626, surface_tension=15.5, cross_sectional_area=0.45,
+                         gas_density=0.00205, enthalpy_liquefaction=26.4, molecular_diameter=0.45, polarizability=0.001, magnetic_susceptibility=1.0e-7, surface_density=5.0e18)
     p = numpy.concatenate([numpy.exp(numpy.linspace(math.log(1e-6), math.log(0.05), 25)), numpy.linspace(0.06, 0.97, 45)])
     n = 4.0 * 80 * p / ((1 - 0.85 * p) * (1 - 0.85 * p + 80 * p)) + 2.0 * p / (0.002 + p) + 6 / (1 + numpy.exp(-(p - 0.55) / 0.03))
     return pygaps.PointIsotherm(pressure=list(p), loading=list(n), branch="ads", material="verif-c15-%d" % i, adsorbate=ads, temperature=T, pressure_mode="relative", pressure_unit=None,
@@ -272,7 +277,10 @@ def _run_twin(case, ctx):
     rt = _rt(entry)
     if entry.startswith("initial_henry") and how.startswith("convert"):
         # reported in the isotherm's own units: changes by exactly the unit factors
-        fl = RU.fluid(gen.backend_of(str(base.adsorbate)))
+        if str(base.adsorbate) == "verif-c15-vapour":
+            fl = RU.UserFluid(72.15, 68300.0, 0.626, 0.00205)
+        else:
+            fl = RU.fluid(gen.backend_of(str(base.adsorbate)))
         T = base.temperature
         try:
             fp = RU.pressure_factor(base.pressure_mode, base.pressure_unit, twin.pressure_mode, twin.pressure_unit, fl, T)
